@@ -64,6 +64,7 @@ func init() {
 			Assumptions: []string{"encoding/json, net.ParseIP, regexp, strconv behave as documented"},
 			Trusted:     []string{"go/packages", "go/types", "go/ssa", "encoding/json"},
 			RuleDoc: map[string]string{
+				"R9.state":   "no memory of earlier calls: on the call tree only frozen package-level variables are touched (known exceptions listed with reasons), and no package-level object is handed out",
 				"R1.fields":  "source and validity must-facts of every field of the parameter literal; independence from the client message",
 				"R3.transid": "transaction id = hex of 5 crypto/rand bytes",
 				"R5.version": "version parser: 16-bit major/minor from the two sides of the dot, in order",
@@ -77,6 +78,7 @@ func init() {
 }
 
 func runC14(c *Ctx) {
+	stateRule(c, "R9.state", []*ssa.Function{c.w.Func("csr", "NewReqParam")}, knownState)
 	if c.w.Func("csr", "NewReqParam") == nil {
 		c.Unresolved("R4.bounds", "csr.NewReqParam")
 		return
